@@ -35,6 +35,16 @@ fn qtok(v: &QV) -> String {
     }
 }
 
+fn val_of(t: &str) -> PropertyValue {
+    if let Some(i) = t.strip_prefix('i') {
+        PropertyValue::Integer(i.parse().unwrap())
+    } else if let Some(s) = t.strip_prefix('s') {
+        PropertyValue::String(s.to_string())
+    } else {
+        PropertyValue::Null
+    }
+}
+
 /// Cypher literal of a value token ("i1", "sa", "null")
 fn lit(t: &str) -> String {
     if t == "null" {
@@ -92,6 +102,7 @@ fn source(s: &Value) -> String {
     match gs(s, "kind") {
         "none" => String::new(),
         "match" => format!("MATCH {} ", node_pat("n", &s["n"])),
+        "matchwith" => format!("MATCH {} WITH n ", node_pat("n", &s["n"])),
         "match2" => format!("MATCH {}, {} ", node_pat("n", &s["n"]), node_pat("m", &s["m"])),
         "matchrel" => format!("MATCH {}-[r:{}]->{} ", node_pat("n", &s["n"]), gs(s, "t"), node_pat("m", &s["m"])),
         "unwind" => {
@@ -202,7 +213,8 @@ fn rows_of(engine: &QueryEngine, st: &GraphStore, q: &str) -> Value {
     }
 }
 
-fn observe(st: &GraphStore, cap: u64, universe: &[String], with_probes: bool) -> Value {
+fn observe(st: &GraphStore, cap: u64, universe: &[String], probes_level: u64) -> Value {
+    let with_probes = probes_level > 0;
     let mut nodes = Vec::new();
     let mut rels = Vec::new();
     for n in 1..=cap {
@@ -245,8 +257,17 @@ fn observe(st: &GraphStore, cap: u64, universe: &[String], with_probes: bool) ->
         probes.insert(format!("label:{l}"), json!(by));
         probes.insert(format!("scan:{l}"), rows_of(&engine, st, &format!("MATCH (n:{l}) RETURN id(n)")));
         for v in universe {
-            probes.insert(format!("eq:{l}:{v}"), rows_of(&engine, st, &format!("MATCH (n:{l} {{k: {}}}) RETURN id(n)", lit(v))));
-            probes.insert(format!("where:{l}:{v}"), rows_of(&engine, st, &format!("MATCH (n:{l}) WHERE n.k = {} RETURN id(n)", lit(v))));
+            if probes_level == 1 {
+                // property lookups through the engine (index-backed as soon as an index / constraint on (l, k) exists)
+                probes.insert(format!("eq:{l}:{v}"), rows_of(&engine, st, &format!("MATCH (n:{l} {{k: {}}}) RETURN id(n)", lit(v))));
+                probes.insert(format!("where:{l}:{v}"), rows_of(&engine, st, &format!("MATCH (n:{l}) WHERE n.k = {} RETURN id(n)", lit(v))));
+            }
+            // the unique-constraint index itself: who is registered as the holder of v for :l(k)
+            if st.property_index.has_unique_constraint(&samyama::graph::Label::new(*l), "k") {
+                let holder = st.property_index.unique_constraint_holder(&samyama::graph::Label::new(*l), "k", &val_of(v));
+                let hs: Vec<u64> = holder.iter().map(|h| h.as_u64()).collect();
+                probes.insert(format!("cons:{l}:{v}"), json!(hs));
+            }
         }
     }
     let mut cons: Vec<String> = st.property_index.list_constraints().iter().map(|(l, p)| format!("{}.{}", l.as_str(), p)).collect();
@@ -264,7 +285,8 @@ fn run(scripts: &str, trace: &str, opts: &Opts) -> Res<()> {
     let cap = opts.get_u64("cap", 12);
     let universe: Vec<String> = opts.get_str("universe", "i1,i2").split(',').map(|s| s.to_string()).collect();
     let verbose = opts.get_u64("verbose", 0) > 0;
-    let with_probes = opts.get_u64("probes", 0) > 0;
+    // probes=0 none | 1 label index + engine property lookups + constraint index | 2 label index + constraint index
+    let with_probes = opts.get_u64("probes", 0);
     let scripts = read_scripts(scripts)?;
     let mut tr = Trace::create(trace)?;
     for s in &scripts {
